@@ -61,7 +61,7 @@ func sizeOn(r *rand.Rand, sc gen.SumScenario, side int) int {
 
 func runC13(c *hx.Ctx) {
 	r := c.Rng
-	budget := &sumBudget{left: 170000}
+	budget := &sumBudget{left: 140000}
 	if c.Tier == "thorough" {
 		budget.left = 6000000
 	}
